@@ -77,7 +77,9 @@ func (rt *runtime) cmplFunctionDeclaration(list []*nodeFunctionLiteral) {
 
 	for _, function := range list {
 		name := function.name
-		value := rt.cmplEvaluateNodeExpression(function)
+		// A declaration is bound in the variable environment only: unlike a named
+		// function expression it has no environment of its own holding its name.
+		value := objectValue(rt.newNodeFunction(function, stash))
 		if !stash.hasBinding(name) {
 			stash.createBinding(name, eval, value)
 		} else {
